@@ -69,6 +69,7 @@ class Controller:
         self.info = {}
         self.stop_observed = False
         self.inflight = None
+        self.save_oplogs = []
 
     # -- helpers
     def _params(self, algo):
@@ -168,9 +169,13 @@ class Controller:
         self.inflight = {"position": self.position, "snapshot": snap, "params": params}
         if p["kind"] == "fsfault" and self.saves_started == p["n"]:
             self.fs.arm(dict(p["fault"]))
+        elif p["kind"] == "probe":
+            self.fs.arm(None)  # count the fs operations of every checkpoint write
         return snap, params
 
     def after_save(self, algo, snap, params):
+        if self.plan["kind"] == "probe":
+            self.save_oplogs.append((list(self.fs.oplog), self.fs.user_writes))
         self.fs.disarm()
         self.inflight = None
         rec = {"position": self.position, "snapshot": snap, "params": params, "bytes": self.fs.durable(self.meta["ckpt"])}
